@@ -21,7 +21,14 @@
 (***************************************************************************)
 EXTENDS Integers, Sequences, FiniteSets, TLC
 
+CONSTANT FBug            \* "none" | name of a seeded model bug (sensitivity self-tests only)
+
 DigitCh == {"0", "1", "2", "3", "4", "5", "6", "7", "8", "9"}
+\* Two non-ASCII characters are written as named one-element tokens (the driver's codec maps them):
+\*   "<ar0>"  U+0660 ARABIC-INDIC DIGIT ZERO: a Unicode DECIMAL digit (Py_UNICODE_TODECIMAL = 0, str.isdigit)
+\*   "<sup2>" U+00B2 SUPERSCRIPT TWO: str.isdigit() is true, but it is no decimal digit (int() rejects it)
+DecCh == DigitCh \cup {"<ar0>"}
+IsDigitCh == DecCh \cup {"<sup2>"}
 AlignCh == {"<", ">", "=", "^"}
 SignCh  == {"+", "-", " "}
 
@@ -37,10 +44,31 @@ FirstIn(t, p, S) == IF p > Len(t) THEN 0 ELSE IF t[p] \in S THEN p ELSE FirstIn(
 
 DigitVal(ch) == CASE ch = "0" -> 0 [] ch = "1" -> 1 [] ch = "2" -> 2 [] ch = "3" -> 3 [] ch = "4" -> 4
                   [] ch = "5" -> 5 [] ch = "6" -> 6 [] ch = "7" -> 7 [] ch = "8" -> 8 [] ch = "9" -> 9
+                  [] ch = "<ar0>" -> 0
 RECURSIVE DigitsVal(_)
 DigitsVal(s) == IF s = << >> THEN 0 ELSE 10 * DigitsVal(SubSeq(s, 1, Len(s) - 1)) + DigitVal(s[Len(s)])
-\* get_integer(): -1 for an empty string or one with a non-digit
-IntOf(s) == IF s = << >> \/ (\E j \in 1..Len(s) : s[j] \notin DigitCh) THEN -1 ELSE DigitsVal(s)
+\* TLC integers are 32 bit: values are capped at BigIdx (every argument list here is far shorter)
+BigIdx == 999999
+RECURSIVE StripZeros(_)
+StripZeros(s) == IF s # << >> /\ DigitVal(s[1]) = 0 THEN StripZeros(Tail(s)) ELSE s
+CapVal(s) == LET z == StripZeros(s) IN IF Len(z) > 6 THEN BigIdx ELSE DigitsVal(z)
+\* PY_SSIZE_T_MAX = 2^63 - 1
+MaxSsize == <<9, 2, 2, 3, 3, 7, 2, 0, 3, 6, 8, 5, 4, 7, 7, 5, 8, 0, 7>>
+RECURSIVE DigitsGT(_, _, _)
+DigitsGT(z, m, i) == IF i > Len(z) THEN FALSE
+                     ELSE IF DigitVal(z[i]) # m[i] THEN DigitVal(z[i]) > m[i] ELSE DigitsGT(z, m, i + 1)
+ExceedsSsize(s) == LET z == StripZeros(s) IN
+                   IF Len(z) # Len(MaxSsize) THEN Len(z) > Len(MaxSsize) ELSE DigitsGT(z, MaxSsize, 1)
+\* get_integer() (unicode_format.h): scans left to right; a character that is not a Unicode decimal digit
+\* (Py_UNICODE_TODECIMAL < 0; so a sign, a space, "_" or a superscript digit) -> -1 "not an integer"; as soon
+\* as the accumulated value would exceed PY_SSIZE_T_MAX -> ValueError("Too many decimal digits in format
+\* string").  -1: not an integer (or empty), -2: the ValueError, otherwise the value (capped at BigIdx)
+IntOf(s) ==
+    LET p == RunEnd(s, 1, DecCh) - 1 IN          \* length of the decimal prefix
+    IF s = << >> THEN -1
+    ELSE IF p >= 1 /\ ExceedsSsize(SubSeq(s, 1, p)) THEN -2
+    ELSE IF p < Len(s) THEN -1
+    ELSE CapVal(s)
 
 (***************************************************************************)
 (* Value atoms: literals passed to .format()                               *)
@@ -67,7 +95,8 @@ RGetAttr(v, name) ==
 \* v[name]: an all-digit name is an integer index, anything else a str key
 RGetItem(v, name) ==
     LET idx == IntOf(name) IN
-    IF ValTy(v) = "int" \/ v = "none" THEN [exc |-> "TypeError", v |-> v]            \* not subscriptable
+    IF idx = -2 THEN [exc |-> "ValueError", v |-> v]                                 \* Too many decimal digits
+    ELSE IF ValTy(v) = "int" \/ v = "none" THEN [exc |-> "TypeError", v |-> v]            \* not subscriptable
     ELSE IF v = "da" THEN (IF idx = -1 /\ name = <<"a">> THEN [exc |-> "ok", v |-> "i1"]
                            ELSE [exc |-> "KeyError", v |-> v])
     ELSE IF idx = -1 THEN [exc |-> "TypeError", v |-> v]                             \* list/str indices must be integers
@@ -250,9 +279,11 @@ RField(c, s, q, depth, st, acc) ==
         rest == IF j = 0 THEN << >> ELSE SubSeq(f.name, j, Len(f.name))
         empty == first = << >>
         numeric == empty \/ IntOf(first) # -1
+        toomany == IntOf(first) = -2          \* field_name_split: get_integer() failed with an exception
         an1 == IF st.an = "init" /\ numeric THEN (IF empty THEN "auto" ELSE "manual") ELSE st.an
     IN
-    IF numeric /\ an1 = "manual" /\ empty THEN RRes("ValueError", "manual-to-auto", acc, st)
+    IF toomany THEN RRes("ValueError", "too-many-digits", acc, st)
+    ELSE IF numeric /\ an1 = "manual" /\ empty THEN RRes("ValueError", "manual-to-auto", acc, st)
     ELSE IF numeric /\ an1 = "auto" /\ ~empty THEN RRes("ValueError", "auto-to-manual", acc, st)
     ELSE
     LET idx == IF empty THEN st.next ELSE IntOf(first)
@@ -352,10 +383,31 @@ IIndex(t, ps) ==
 \* the field record is inserted at position `slot` when the field is complete (a field precedes the
 \* fields nested in its format spec in iter_replacement_fields :543-549)
 InsertAt(s, k, x) == SubSeq(s, 1, k - 1) \o <<x>> \o SubSeq(s, k, Len(s))
+\* int(str) as far as the alphabets reach (seeded model bug "int-semantics" only): surrounding spaces are
+\* stripped, an optional sign, decimal digits with single "_" between digits
+RECURSIVE LStrip(_), RStrip(_)
+LStrip(s) == IF s # << >> /\ s[1] = " " THEN LStrip(Tail(s)) ELSE s
+RStrip(s) == IF s # << >> /\ s[Len(s)] = " " THEN RStrip(SubSeq(s, 1, Len(s) - 1)) ELSE s
+IntBody(chars) == LET s == RStrip(LStrip(chars)) IN IF s # << >> /\ s[1] \in {"+", "-"} THEN Tail(s) ELSE s
+IntAccepts(chars) ==
+    LET b == IntBody(chars) IN
+    /\ b # << >> /\ b[1] \in DecCh /\ b[Len(b)] \in DecCh
+    /\ \A j \in 1..Len(b) : b[j] \in DecCh \cup {"_"}
+    /\ \A j \in 1..(Len(b) - 1) : ~(b[j] = "_" /\ b[j + 1] = "_")
+IntNegative(chars) == LET s == LStrip(chars) IN s # << >> /\ s[1] = "-"
+\* the tail of _parse_replacement_field :669-676: "" -> None; str.isdigit() -> int(name); else the name
 NameOf(chars) == IF chars = << >> THEN <<"auto">>
-                 ELSE IF \A j \in 1..Len(chars) : chars[j] \in DigitCh THEN <<"int", chars>>   \* isdigit :672
+                 ELSE IF FBug = "int-semantics" THEN (IF IntAccepts(chars) THEN <<"int", chars>> ELSE <<"str", chars>>)
+                 ELSE IF \A j \in 1..Len(chars) : chars[j] \in IsDigitCh THEN <<"int", chars>>   \* isdigit :672
                  ELSE <<"str", chars>>
-Done(ps, name, slot) == [ps EXCEPT !.fields = InsertAt(@, slot, NameOf(name))]
+\* int(name) raises ValueError for an isdigit() string with a non-decimal digit ("\u00b2") :673
+NameCrashes(chars) == /\ FBug # "int-semantics" /\ chars # << >>
+                      /\ \A j \in 1..Len(chars) : chars[j] \in IsDigitCh
+                      /\ \E j \in 1..Len(chars) : chars[j] \notin DecCh
+\* the index an "int" field denotes (Python ints are unbounded: capped at BigIdx, see CapVal)
+ImplIdx(chars) == LET v == CapVal(SelectSeq(chars, LAMBDA ch : ch \in DecCh)) IN
+                  IF FBug = "int-semantics" /\ IntNegative(chars) THEN 0 - v ELSE v
+Done(ps, name, slot) == [ps EXCEPT !.fields = InsertAt(@, slot, NameOf(name)), !.crash = @ \/ NameCrashes(name)]
 
 \* _parse_replacement_field :596-676
 IField(t, ps, name, allowed, slot) ==
@@ -382,8 +434,9 @@ IField(t, ps, name, allowed, slot) ==
        ELSE IF ch = "{" THEN AddErr(ps1, "p-open-in-name")                         \* :664
        ELSE IField(t, ps1, Append(name, ch), allowed, slot)                        \* :668
 
-ImplParse(t) == IChildren(t, [i |-> 0, errs |-> << >>, fields |-> << >>], "")
-ImplParseErrs(t) == ImplParse(t).errs
+ImplParse(t) == IChildren(t, [i |-> 0, errs |-> << >>, fields |-> << >>, crash |-> FALSE], "")
+\* the exception leaves parse_format_string: no error list at all
+ImplParseErrs(t) == IF ImplParse(t).crash THEN << <<0, "CRASH">> >> ELSE ImplParse(t).errs
 
 \* _str_format_impl, implementation.py:1417-1473
 RECURSIVE IFields(_, _, _, _, _)
@@ -396,7 +449,7 @@ IFields(c, fs, j, cur, acc) ==
                     [acc EXCEPT !.msgs = IF cur >= Len(c.pos) THEN Append(@, "too-few") ELSE @,
                                 !.upos = @ \cup {cur}])
          ELSE IF f[1] = "int" THEN                                                \* :1437
-            LET idx == DigitsVal(f[2]) IN
+            LET idx == ImplIdx(f[2]) IN
             IFields(c, fs, j + 1, cur,
                     [acc EXCEPT !.msgs = IF idx >= Len(c.pos) THEN Append(@, "index-range") ELSE @,
                                 !.upos = @ \cup {idx}])
@@ -407,14 +460,16 @@ IFields(c, fs, j, cur, acc) ==
 
 ImplMsgs(c) ==
     LET P == ImplParse(c.t) IN
-    IF P.errs # << >> THEN << P.errs[1][2] >>                                      \* :1422-1425
+    IF P.crash THEN << >>                                                          \* internal error, no report
+    ELSE IF P.errs # << >> THEN << P.errs[1][2] >>                                      \* :1422-1425
     ELSE LET r == IFields(c, P.fields, 1, 0, [msgs |-> << >>, upos |-> {}, ukw |-> {}])
          IN r.msgs
             \o (IF \E i \in 0..(Len(c.pos) - 1) : i \notin r.upos THEN <<"unused-pos">> ELSE << >>)   \* :1457
             \o (IF \E k \in 1..Len(c.kw) : c.kw[k].name \notin r.ukw THEN <<"unused-kw">> ELSE << >>) \* :1465
 \* ctx.show_error on one node with one code: only the first is emitted (node_visitor.py:635)
 ImplFirst(c) == LET m == ImplMsgs(c) IN IF m = << >> THEN "none" ELSE m[1]
-ImplType(c) == "str"                                                               \* :1473
+ImplCrashes(c) == ImplParse(c.t).crash
+ImplType(c) == IF ImplCrashes(c) THEN "any" ELSE "str"                             \* :1473; Any[error] after a crash
 
 (***************************************************************************)
 (* Known deviations (see known_findings.jsonl): _str_format_impl only      *)
@@ -436,6 +491,18 @@ Dev_EscapeInSpec(c, k)   == k = "none" /\ Cause(c) = "unmatched-in-spec"
 \* (format_strings.py:668), CPython rejects them or resolves a different argument
 TextAfterBracket(t) == \E j \in 1..Len(t) : t[j] = "]" /\ At(t, j + 1) \notin {".", "[", "}", "!", ":", "EOF"}
 Dev_TextAfterBracket(c, k) == k = "none" /\ RefRaises(c) /\ TextAfterBracket(c.t)
+
+\* "{\u00b2}".format(1): a field name for which str.isdigit() holds but which is no decimal number makes
+\* int(name) raise inside _parse_replacement_field: internal error, nothing reported, Any[error] inferred.
+\* Stated on the text: some replacement field's name (up to the first "." "[" "!" ":" "}") consists of
+\* isdigit characters, at least one of which is not a decimal digit.
+IsdigitNotDecimal(name) == /\ name # << >> /\ \A j \in 1..Len(name) : name[j] \in IsDigitCh
+                           /\ \E j \in 1..Len(name) : name[j] \notin DecCh
+Dev_IsdigitNameCrash(c) ==
+    \E j \in 1..Len(c.t) :
+        /\ c.t[j] = "{"
+        /\ LET e == FirstIn(c.t, j + 1, {".", "[", "!", ":", "}", "{"}) IN
+           e # 0 /\ IsdigitNotDecimal(SubSeq(c.t, j + 1, e - 1))
 
 DevMissed(c, k) ==
     CASE Dev_AutoManualMix(c, k) -> "format-auto-manual-mix"
@@ -461,8 +528,7 @@ TypeIsResultType(c, ty) == ~RefRaises(c) => ty = RefType(c)
 CONSTANTS
     FTokens, MaxFTokens,
     PosVals, MaxPos,
-    KwNames, KwVals, MaxKw,
-    FBug            \* "none" | name of a seeded model bug (sensitivity self-test)
+    KwNames, KwVals, MaxKw
 
 VARIABLES case, stage, ntok
 vars == <<case, stage, ntok>>
@@ -502,10 +568,14 @@ MFirst(c) ==
 
 Modelled == stage = "done" => RefOutcome(case) # "unmodelled"
 Soundness == stage = "done" =>
-    (ReportsWhenRaises(case, MFirst(case)) \/ DevMissed(case, MFirst(case)) # "no")
+    (ReportsWhenRaises(case, MFirst(case)) \/ DevMissed(case, MFirst(case)) # "no"
+     \/ (ImplCrashes(case) /\ Dev_IsdigitNameCrash(case)))
 Precision == stage = "done" =>
     (SilentWhenOk(case, MFirst(case)) \/ DevFalse(case, MFirst(case)) # "no")
-ResultType == stage = "done" => TypeIsResultType(case, ImplType(case))
+ResultType == stage = "done" =>
+    (TypeIsResultType(case, ImplType(case)) \/ (ImplCrashes(case) /\ Dev_IsdigitNameCrash(case)))
+NoCrash == stage = "done" => (~ImplCrashes(case) \/ Dev_IsdigitNameCrash(case))
+NoCrashStrict == stage = "done" => ~ImplCrashes(case)
 SoundnessStrict == stage = "done" => ReportsWhenRaises(case, MFirst(case))
 
 (***************************************************************************)
